@@ -13,7 +13,7 @@ from sa.index import AnalysisError, ClassInfo
 from sa.models import shape_str, strip_opt
 from sa.peval import peval, weak_orderings
 from sa.report import VERIF, Ctx
-from sa.sym import FALSE, NONE, NOT, Summary, conjuncts, show, walk
+from sa.sym import FALSE, NONE, NOT, Summary, conjuncts, show, subst, walk
 
 DATA = "soundevent.data"
 EXPLANATION = (
@@ -212,22 +212,33 @@ class C04:
 
     def check_validators(self):
         ctx = self.ctx
-        # (a) ClipEvaluation._check_clips_match
-        got = self.validator(f"{DATA}.clip_evaluations", "ClipEvaluation", "_check_clips_match", "after")
-        if got:
-            ci, s, p = got
+        # (a) + (b) ClipEvaluation: the clip comparison and the match bookkeeping, in whichever after-validators they are written
+        # (two validators on the reference tree; one merged validator is the same set of rejections)
+        cei = ctx.index.need_class(f"{DATA}.clip_evaluations", "ClipEvaluation")
+        cev = [v for v in ctx.models.validators(cei, inherited=False) if v.kind == "model"]
+        names = [v.name for v in cev] or ["_check_clips_match", "_check_matches"]
+        parts = []
+        for vn in names:
+            got = self.validator(f"{DATA}.clip_evaluations", "ClipEvaluation", vn, "after")
+            if got:
+                parts.append(got)
+        if parts:
+            ci = parts[0][0]
+            p = parts[0][2]
             a = ("attr", ("attr", ("attr", p, "annotations"), "clip"), "uuid")
             b = ("attr", ("attr", ("attr", p, "predictions"), "clip"), "uuid")
-            trig = [g for g, _ in triggers(s)]
+            clip_trig, match_trig = [], []
+            for _, s_, p_ in parts:
+                for g, r in triggers(s_):
+                    if p_ != p:
+                        g = subst(g, {p_: p})
+                    (clip_trig if any(x in (a, b) for x in walk(g)) else match_trig).append((g, r, s_))
+            s0 = (clip_trig[0][2] if clip_trig else parts[0][1])
             atoms = {"differ": sym_cmp(("cmp", "ne", a, b))}
-            trig = [self._canon(t) for t in trig]
-            self.truth_check("R04.2", ci, "_check_clips_match", s, trig, atoms, lambda differ: differ,
-                             "annotations.clip.uuid != predictions.clip.uuid", s.node.lineno)
-        # (b) ClipEvaluation._check_matches
-        got = self.validator(f"{DATA}.clip_evaluations", "ClipEvaluation", "_check_matches", "after")
-        if got:
-            ci, s, p = got
-            self.check_matches(ci, s, p)
+            self.truth_check("R04.2", ci, s0.qual.split(".")[-1], s0, [self._canon(g) for g, _, _ in clip_trig], atoms, lambda differ: differ,
+                             "annotations.clip.uuid != predictions.clip.uuid", s0.node.lineno)
+            s1 = (match_trig[0][2] if match_trig else parts[-1][1])
+            self.check_matches(ci, s1, p, [(g, r) for g, r, _ in match_trig])
         # (c) Match._validate_match
         mci = ctx.index.need_class(f"{DATA}.matches", "Match")
         mmv = [v for v in ctx.models.validators(mci, inherited=False) if v.kind == "model"]
@@ -287,7 +298,7 @@ class C04:
                     rhs = alpha(g[3])
                     want = alpha(("comp", "set", ("attr", ("attr", ("elem", "X"), "clip"), "uuid"), (("X", ("attr", p, "tasks"), ()),)))
                     want_l = alpha(("comp", "list", ("attr", ("attr", ("elem", "X"), "clip"), "uuid"), (("X", ("attr", p, "tasks"), ()),)))
-                    good = rhs in (want, want_l) or (rhs[0] == "call" and rhs[1] == ("builtin", "set") and alpha(rhs[2][0]) in (want, want_l, alpha(("comp", "gen", want[2], want[3]))))
+                    good = rhs in (want, want_l) or (rhs[0] == "call" and rhs[1] in (("builtin", "set"), ("builtin", "frozenset"), ("builtin", "list"), ("builtin", "tuple")) and len(rhs[2]) == 1 and alpha(rhs[2][0]) in (want, want_l, alpha(("comp", "gen", want[2], want[3]))))
                 if ok_loop and good:
                     ctx.ok("R04.2", site, "raise iff some annotated clip's clip.uuid is not among {task.clip.uuid}")
                 else:
@@ -457,10 +468,11 @@ class C04:
                      f"the rejection condition does not test both `source` and `target` for None: {show(trig)[:100]}",
                      s.node.lineno)
 
-    def check_matches(self, ci, s, p):
+    def check_matches(self, ci, s, p, trigs=None):
         ctx = self.ctx
         file = ci.module.relpath
         site = f"{file}:{s.node.lineno} ClipEvaluation._check_matches"
+        trigs = triggers(s) if trigs is None else trigs
 
         def ids(side):  # [m.<side>.uuid for m in self.matches if m.<side> is not None]
             e = ("elem", "X")
@@ -485,7 +497,7 @@ class C04:
             "sources == predicted events": self._canon(alpha(("cmp", "ne", SET(S), P))),
         }
         got = {}
-        for g, r in triggers(s):
+        for g, r in trigs:
             got[self._canon(alpha(g))] = (g, r)
         # alpha() numbers binders per whole term, so normalise each side independently as well
         def norm(t):
@@ -493,7 +505,7 @@ class C04:
             if t[0] == "cmp":
                 return self._canon(("cmp", t[1], alpha(t[2]), alpha(t[3])))
             return alpha(t)
-        got = {norm(g): (g, r) for g, r in triggers(s)}
+        got = {norm(g): (g, r) for g, r in trigs}
         want = {k: norm(v) for k, v in {
             "duplicate targets": ("cmp", "ne", LEN(T), LEN(SET(T))),
             "duplicate sources": ("cmp", "ne", LEN(S), LEN(SET(S))),
@@ -570,7 +582,7 @@ class C04:
 
 def run(ctx: Ctx):
     ctx.rule("R04.1", "every score/affinity field is declared with ge=0, le=1", 7)
-    ctx.rule("R04.2", "relational validators: registered, reject exactly the specified condition, otherwise return input", 13)
+    ctx.rule("R04.2", "relational validators: registered, reject exactly the specified condition, otherwise return input", 12)
     ctx.rule("R04.6", "ordering invariants are tested on validated (coerced) values, not on the raw input", 1)
     ctx.rule("R04.3", "no construction/mutation path bypasses validation (package sweep + positive fixture)", 100)
     c = C04(ctx)
